@@ -281,7 +281,7 @@ impl Iterator for RenkoOutput {
 
 	#[inline]
 	fn nth(&mut self, n: usize) -> Option<Self::Item> {
-		self.pos += n;
+		self.pos = self.pos.saturating_add(n).min(self.len);
 		self.next()
 	}
 
